@@ -2,8 +2,9 @@
 PROP = "C15"
 LEVEL = "exploration"
 ENGINE = "pyvc+bounded"
-HARNESS_MODULES = ["contracts.c15_leaf_codecs", "contracts.c15_combinators", "contracts.c16_wrappers"]
-EXTRA_HARNESSES = [("C16", "serialize_problem_contract"), ("C16", "deserialize_problem_contract")]
+HARNESS_MODULES = ["contracts.c15_leaf_codecs", "contracts.c15_combinators", "contracts.c16_wrappers", "contracts.c16_yajilin_clue"]
+EXTRA_HARNESSES = [("C16", "serialize_problem_contract"), ("C16", "deserialize_problem_contract"),
+                   ("C16", "yajilin_clue_roundtrip"), ("C16", "yajilin_clue_specials"), ("C16", "yajilin_clue_accepts_only")]
 
 
 def bounded(tier, seed, rep):
